@@ -16,6 +16,11 @@ const lazyTick = 10 * time.Millisecond
 // lazyScenario runs the real AggregationLoop in virtual time with the production function replaced
 // by a recorder (the seam the package's own tests use). Times are logged in ms since loop start.
 func lazyScenario(c *Ctx, run string, lazy bool, bt, lz int, durs []int, notifyAt []int, horizon int) {
+	lazyScenarioResume(c, run, lazy, bt, lz, durs, notifyAt, horizon, -1)
+}
+
+// resumeAge >= 0: the loop starts on an existing chain whose last block is that many ticks old (a restarted node).
+func lazyScenarioResume(c *Ctx, run string, lazy bool, bt, lz int, durs []int, notifyAt []int, horizon int, resumeAge int) {
 	synctest.Run(func() {
 		c.Tr.Reset(run, world.F{"driver": "lazy", "ih": 1})
 		w := world.NewWorld(c.Tr, 1, time.Now().Add(-time.Hour))
@@ -24,6 +29,20 @@ func lazyScenario(c *Ctx, run string, lazy bool, bt, lz int, durs []int, notifyA
 		n.KV.Quiet = true
 		if err := n.Start(context.Background()); err != nil {
 			return
+		}
+		if resumeAge >= 0 {
+			// two real blocks first: the block at the initial height, and one stamped resumeAge ticks ago
+			c.Tr.Mute()
+			err := n.Step(context.Background())
+			if err == nil {
+				n.SeqD.Script = append(n.SeqD.Script, world.SeqReply{Kind: "empty", TsMs: world.Ms(time.Now().Add(-time.Duration(resumeAge) * lazyTick))})
+				err = n.Step(context.Background())
+			}
+			c.Tr.Unmute()
+			if err != nil {
+				c.Tr.Emit("LazySetupErr", world.F{"msg": err.Error()})
+				return
+			}
 		}
 		t0 := time.Now()
 		ms := func() int { return int(time.Since(t0) / time.Millisecond) }
@@ -79,6 +98,17 @@ func RunLazy(c *Ctx) {
 	durSets := [][]int{{0}, {1}, {3}, {5}, {4, 0}, {0, 4}, {2, 7, 0}}
 	type cfg struct{ bt, lz int }
 	cfgs := []cfg{{2, 5}, {3, 6}, {2, 2}, {3, 7}, {2, 9}, {3, 1}, {4, 2}}
+	// a restarted node (existing chain, last block a tick or two old) that is notified right after its start
+	for _, lazy := range []bool{true, false} {
+		for _, cf := range cfgs {
+			for _, age := range []int{0, 1, cf.bt} {
+				for _, at := range []int{0, 1} {
+					lazyScenarioResume(c, fmt.Sprintf("lazy/%v/bt%d-lz%d/resume%d/n%d", lazy, cf.bt, cf.lz, age, at), lazy, cf.bt, cf.lz, []int{0}, []int{at}, 40, age)
+					c.Count("lazyruns", 1)
+				}
+			}
+		}
+	}
 	for _, lazy := range []bool{true, false} {
 		for _, cf := range cfgs {
 			for di, durs := range durSets {
